@@ -4,7 +4,12 @@
 (*        req = the requested fields as read, full = the same fields of a full load*)
 (*  tsub{plain,mode,bits,order,text,nbytes,res,ms,fres,full}  an analysis under a *)
 (*        field subset (ms) and the full-field analysis of the same text (full);  *)
-(*        morphemes as <<begin,end,dic,word>>                                      *)
+(*        morphemes as <<begin,end,dic,word>>; req = the requested fields of every  *)
+(*        morpheme as its word information shows them, freq = the same fields in   *)
+(*        the full-field analysis, lreq = the same fields of the same word read     *)
+(*        from the lexicon with every field loaded ({none}: OOV, or a configuration   *)
+(*        whose plugins merge tokens); order = which sequence of set_mode /         *)
+(*        set_subset calls (and analyses in other modes) led to the request          *)
 EXTENDS Naturals, Integers, Sequences, FiniteSets, TLC, TraceIO
 
 VARIABLES l
@@ -31,6 +36,10 @@ TrTok == /\ l <= NRec /\ Ev.ev = "tsub"
               /\ Tiles(Ev.ms, Ev.nbytes)                                   \* surfaces always partition the input
               /\ (Len(Ev.ms) = 0) <=> (Len(Ev.full) = 0)
               /\ (Ev.plain \/ CoversPlugins(Ev.bits)) => Ev.ms = Ev.full    \* boundaries and word identities
+              \* "each requested field - read through its public accessor - has the same value as when all fields are loaded",
+              \* whatever calls led to the request and whichever mode produced the token
+              /\ (Ev.fres = "ok" /\ Ev.ms = Ev.full) => Ev.req = Ev.freq
+              /\ \A i \in 1..Len(Ev.lreq) : "none" \notin DOMAIN Ev.lreq[i] => Ev.req[i] = Ev.lreq[i]
          /\ l' = l + 1
 
 TNext == TrWord \/ TrTok
